@@ -68,6 +68,18 @@ static int single_case(Choice& c, Report& rep) {
   int chg_at[2] = {0, 0}, chg_to[2] = {0, 0};
   for (int i = 0; i < nchg; i++) { chg_at[i] = c.irange(1, 20); chg_to[i] = 1 + c.irange(0, 1); }
   if (e.force_channels != OPUS_AUTO && e.force_channels > e.ch) e.force_channels = e.ch;
+  // class "stereo hand-over in multi-frame packets": a stream that really is coded in stereo by the speech layer (forced to 2 channels,
+  // speech-layer rates), packets assembled from several frames, then the forced count changed to 1 (and possibly back) mid-stream
+  if (c.chance(26)) {
+    e.ch = 2; e.force_channels = 2; e.Fs = c.pick((const int[]){48000, 16000, 24000, 48000}); e.app = c.boolean() ? OPUS_APPLICATION_VOIP : OPUS_APPLICATION_AUDIO;
+    e.bitrate = c.irange(16000, 64000); e.signal = OPUS_SIGNAL_VOICE; e.force_mode = c.pick((const int[]){(int)OPUS_AUTO, cu::MODE_SILK, cu::MODE_HYBRID});
+    if (e.force_mode == cu::MODE_HYBRID && e.Fs < 24000) e.force_mode = cu::MODE_SILK;
+    e.bandwidth = OPUS_AUTO; e.max_bandwidth = OPUS_BANDWIDTH_FULLBAND; e.dtx = 0; e.vbr = 1; e.fec = 0;
+    d = c.pick((const int[]){4, 5, 6, 7, 8}); expert_mode = 0; tight = false; tightb = 0;
+    nchg = 1 + c.irange(0, 1); chg_at[0] = c.irange(3, 8); chg_to[0] = 1; chg_at[1] = chg_at[0] + c.irange(4, 8); chg_to[1] = 2;
+    npk = chg_at[nchg - 1] + 6;
+    rep.label("class:stereo-hand-over-multiframe");
+  }
   // F21: while SILK DTX is active the stereo->mono hand-over never completes (DTX frames return before the channel history is
   // updated), so coded stereo packets keep appearing until the next DTX refresh.  Class excluded: mid-stream changes of the forced
   // channel count on encoders with DTX enabled.
